@@ -168,7 +168,8 @@ def _gen_neighbours(r, w):
 
 def gen_plan(r, index, tier):
     w, cfg = common.gen_stream_workload(r, max_values=3, small=True, force_codec='ber', allow_f2=False, variants=False,
-                                        constructed_default=r.random() < 0.4, constraints=r.random() < 0.4)
+                                        constructed_default=r.random() < 0.4, constraints=r.random() < 0.4,
+                                        octet_encoding=r.random() < 0.5)
     if r.random() < 0.12:
         # open types (and the caller-supplied openTypes= configuration) are rare in random descriptors
         for _ in range(12):
